@@ -367,3 +367,86 @@ func FieldOf(diffLine string) string {
 
 // Size is the number of leaves (for evidence).
 func (s *Snapshot) Size() int { return len(s.Leaves) }
+
+// Ranges returns the address ranges of every heap object reachable from the roots
+// (pointer targets, slice backing arrays; a map counts as one address: its header pointer).
+func Ranges(roots map[string]any) [][2]uintptr {
+	var out [][2]uintptr
+	seen := map[visit]bool{}
+	var walk func(v reflect.Value, depth int)
+	walk = func(v reflect.Value, depth int) {
+		if !v.IsValid() || depth > 200 {
+			return
+		}
+		t := v.Type()
+		if t == reflect.TypeOf(reflect.Value{}) {
+			return
+		}
+		switch v.Kind() {
+		case reflect.Ptr:
+			if v.IsNil() {
+				return
+			}
+			key := visit{v.Pointer(), t}
+			if seen[key] {
+				return
+			}
+			seen[key] = true
+			sz := t.Elem().Size()
+			if sz == 0 {
+				sz = 1
+			}
+			out = append(out, [2]uintptr{v.Pointer(), v.Pointer() + sz})
+			if isOpaque(t) {
+				return
+			}
+			walk(v.Elem(), depth+1)
+		case reflect.Interface:
+			if !v.IsNil() {
+				walk(access(v).Elem(), depth+1)
+			}
+		case reflect.Struct:
+			if isOpaque(t) {
+				return
+			}
+			for i := 0; i < v.NumField(); i++ {
+				walk(accessField(v, i, v.Field(i)), depth+1)
+			}
+		case reflect.Slice:
+			if v.IsNil() || v.Len() == 0 {
+				return
+			}
+			key := visit{v.Pointer(), t}
+			if seen[key] {
+				return
+			}
+			seen[key] = true
+			out = append(out, [2]uintptr{v.Pointer(), v.Pointer() + uintptr(v.Cap())*t.Elem().Size() + 1})
+			for i := 0; i < v.Len(); i++ {
+				walk(v.Index(i), depth+1)
+			}
+		case reflect.Array:
+			for i := 0; i < v.Len(); i++ {
+				walk(v.Index(i), depth+1)
+			}
+		case reflect.Map:
+			if v.IsNil() {
+				return
+			}
+			key := visit{v.Pointer(), t}
+			if seen[key] {
+				return
+			}
+			seen[key] = true
+			out = append(out, [2]uintptr{v.Pointer(), v.Pointer() + 1})
+			iter := v.MapRange()
+			for iter.Next() {
+				walk(iter.Value(), depth+1)
+			}
+		}
+	}
+	for _, r := range roots {
+		walk(reflect.ValueOf(r), 0)
+	}
+	return out
+}
